@@ -2,7 +2,10 @@ package main
 
 import (
 	"fmt"
+	"os"
+	"runtime"
 	"strings"
+	"time"
 
 	"gonum.org/v1/gonum/internal/verif/vlib"
 	"gonum.org/v1/gonum/internal/verif/vsched"
@@ -15,35 +18,37 @@ type plan struct {
 	name   string
 }
 
-func plans(g *vlib.G, small bool) []plan {
-	if g.Thorough() {
-		ps := []plan{
-			{0, vsched.Bound{Preemptions: 2, Delays: -1, MaxExecs: 400000}, "pb2/lowest"},
-			{0, vsched.Bound{Preemptions: -1, Delays: 3, MaxExecs: 400000}, "db3/lowest"},
-			{1, vsched.Bound{Preemptions: -1, Delays: 3, MaxExecs: 400000}, "db3/highest"},
-			{2, vsched.Bound{Preemptions: -1, Delays: 3, MaxExecs: 400000}, "db3/roundrobin"},
-		}
-		if small {
-			ps = append(ps, plan{0, vsched.Bound{Preemptions: 3, Delays: -1, MaxExecs: 400000}, "pb3/lowest"})
-		}
-		return ps
-	}
-	ps := []plan{
-		{0, vsched.Bound{Preemptions: 1, Delays: -1, MaxExecs: 60000}, "pb1/lowest"},
-		{0, vsched.Bound{Preemptions: -1, Delays: 2, MaxExecs: 60000}, "db2/lowest"},
-		{1, vsched.Bound{Preemptions: -1, Delays: 2, MaxExecs: 60000}, "db2/highest"},
-		{2, vsched.Bound{Preemptions: -1, Delays: 2, MaxExecs: 60000}, "db2/roundrobin"},
-	}
-	if small {
-		ps = append(ps, plan{0, vsched.Bound{Preemptions: 2, Delays: -1, MaxExecs: 60000}, "pb2/lowest"})
-	}
-	return ps
-}
+func execBudget(g *vlib.G) int { return vlib.Pick(g, 24000, 400000) }
 
 // explore runs body under every plan. check receives the execution and must
 // return "" when the property holds for that schedule; it is only consulted
 // for executions whose outcome is "ok" unless allowOutcome accepts another one.
 func explore(t *vlib.T, g *vlib.G, small bool, body func(), check func(x *vsched.Exec) string) {
+	if raceMode {
+		// companion pass: the same bodies, un-instrumented, free-running under the race detector.
+		reps := vlib.Pick(g, 15, 150)
+		for r := 0; r < reps; r++ {
+			e, hung := vlib.RunWithWatchdog(body, 150*time.Second)
+			if e != nil {
+				panic(e)
+			}
+			if hung {
+				// bodies take milliseconds; the deterministic pass is the deciding one for deadlocks,
+				// this only catches a hang outside its bounds.
+				t.NoConfirm()
+				t.FailClass("free-running-hang", "free-running repetition %d did not return within 150 s", r)
+				return
+			}
+			if msg := check(&vsched.Exec{Outcome: "ok"}); msg != "" {
+				t.Failf("free-running repetition %d: %s", r, msg)
+				break
+			}
+		}
+		t.Count("free_running_repetitions", int64(reps))
+		t.Nontrivial()
+		t.Outcome("race-pass")
+		return
+	}
 	defer func() {
 		if e := recover(); e != nil {
 			if ee, ok := e.(vsched.EngineError); ok {
@@ -54,40 +59,96 @@ func explore(t *vlib.T, g *vlib.G, small bool, body func(), check func(x *vsched
 		}
 	}()
 	outcomes := map[string]int{}
-	for _, p := range plans(g, small) {
-		st, v := vsched.Explore(body, vsched.Options{DefaultPolicy: p.policy}, p.bound, func(x *vsched.Exec) string {
-			if x.Outcome != "ok" {
-				return "schedule ends in " + x.Outcome
+	x0 := vsched.Run(body, vsched.Options{})
+	// Iterative bounding: for each cost model / default scheduler the bound is raised
+	// (1, 2, 3, ...) while the exploration completes within this scenario's share of the
+	// execution budget; the completed bound is reported, a capped level is not counted as covered.
+	families := []struct {
+		name   string
+		policy int
+		pre    bool
+	}{{"pb/lowest", 0, true}, {"db/lowest", 0, false}, {"db/highest", 1, false}, {"db/roundrobin", 2, false}}
+	share := execBudget(g) / len(families)
+	detail := map[string]any{}
+	failed := false
+	for _, f := range families {
+		completed := 0
+		spent := 0
+		for n := 1; n <= 6 && !failed; n++ {
+			b := vsched.Bound{Preemptions: -1, Delays: -1, MaxExecs: share - spent}
+			if f.pre {
+				b.Preemptions = n
+			} else {
+				b.Delays = n
 			}
-			return check(x)
-		})
-		t.Count("schedules", int64(st.Executions))
-		t.Count("traces_validated_against_impl", int64(st.Executions))
-		t.Count("transitions", st.Transitions)
-		t.Count("states", int64(st.DistinctTraces))
-		t.Max("points_per_execution", int64(st.MaxPoints))
-		t.Max("goroutines", int64(st.MaxGoroutines))
-		if st.CapHit {
-			t.Count("plans_capped", 1)
-		} else {
-			t.Count("plans_completed", 1)
-		}
-		for k, n := range st.Outcomes {
-			outcomes[k] += n
-		}
-		if v != nil {
-			tr := v.Trace
-			if len(tr) > 80 {
-				tr = tr[len(tr)-80:]
+			st, v := vsched.Explore(body, vsched.Options{DefaultPolicy: f.policy}, b, func(x *vsched.Exec) string {
+				if x.Outcome != "ok" {
+					return "schedule ends in " + x.Outcome
+				}
+				return check(x)
+			})
+			spent += st.Executions
+			t.Count("schedules", int64(st.Executions))
+			t.Count("traces_validated_against_impl", int64(st.Executions))
+			t.Count("transitions", st.Transitions)
+			t.Max("points_per_execution", int64(st.MaxPoints))
+			t.Max("goroutines", int64(st.MaxGoroutines))
+			for k, c := range st.Outcomes {
+				outcomes[k] += c
 			}
-			t.SubViolation(" plan="+p.name+" schedule="+fmt.Sprint(v.Choices), "schedule", map[string]any{"plan": p.name, "choices": v.Choices, "trace_tail": tr}, "%s [plan %s, schedule %v, %d steps; trace tail: %s]", v.Msg, p.name, v.Choices, len(v.Trace), strings.Join(tail(v.Trace, 14), "; "))
+			if v != nil {
+				failed = true
+				name := fmt.Sprintf("%s bound=%d", f.name, n)
+				t.SubViolation(" plan="+name+" schedule="+fmt.Sprint(v.Choices), "schedule", map[string]any{"plan": name, "choices": v.Choices, "trace_tail": tail(v.Trace, 80)}, "%s [plan %s, schedule %v, %d steps; trace tail: %s]", v.Msg, name, v.Choices, len(v.Trace), strings.Join(tail(v.Trace, 14), "; "))
+				break
+			}
+			if st.CapHit {
+				break
+			}
+			completed = n
+			// "states": distinct operation traces of the deepest completed level of this family
+			detail[f.name] = map[string]any{"completed_bound": n, "executions": st.Executions, "distinct_traces": st.DistinctTraces, "points_min": st.MinPoints, "points_max": st.MaxPoints}
+			if st.Executions == 1 || st.Executions*6 > share-spent {
+				break
+			}
+		}
+		if d, ok := detail[f.name].(map[string]any); ok {
+			t.Count("states", int64(d["distinct_traces"].(int)))
+		}
+		t.Count(fmt.Sprintf("scenarios_with_%s_completed_bound_%d", f.name, completed), 1)
+		if completed == 0 && !failed && !f.pre {
+			// the declared space of the check is "delay bound >= 1 under each default scheduler";
+			// the preemption-bounded family is reported (counters) but optional.
+			t.Incomplete("delay bound 1 of " + f.name + " hit the execution cap")
+		}
+		if failed {
 			break
 		}
-		t.Detail(map[string]any{"last_plan": p.name, "executions": st.Executions, "distinct_traces": st.DistinctTraces, "points_min": st.MinPoints, "points_max": st.MaxPoints, "max_live_goroutines": st.MaxLive})
 	}
+	detail["decisions_default_schedule"] = len(x0.Decisions)
+	t.Detail(detail)
 	t.Nontrivial()
 	ks := vlib.SortedKeys(outcomes)
 	t.Outcome(strings.Join(ks, "|"))
+}
+
+// raceMode is set for the free-running -race companion configuration.
+var raceMode = os.Getenv("VERIF_RACE") == "1"
+
+var yieldCtr int
+
+// point is a scheduling point in a user callback: under the scheduler a real
+// choice point, in the free-running pass an occasional yield.
+func point(what string) {
+	if raceMode {
+		n := 0
+		vlib.Atomically(func() { yieldCtr++; n = yieldCtr })
+		if n%3 == 0 {
+			runtime.Gosched()
+		}
+		return
+	}
+	vsched.Point(what)
 }
 
 func tail(s []string, n int) []string {
